@@ -5,7 +5,7 @@ import OpcuaModel.Model.SrvIds
     run <itemCtr> <subCtr> <op>*  →  <out>* | subs=<id>@<owner>,… items=<id>@<subId>@<owner>@<mode>,… pend=<id>,… ctr=<n> sctr=<n>
       op  = cs:<sess> | ds:<sess>:<ids> | ap:<k> | ci:<sess>:<sub>:<n> | sm:<sess>:<mode>:<ids> | di:<sess>:<ids>
       ids = comma separated, `-` when empty
-      out = id=<n> | st=<ok|sub|ses|itm>,… | ids=<n>,… | nosub | notyours | panic | hit | miss | nopending
+      out = id=<n> | st=<ok|sub|ses|itm>,… | ids=<n>,… | nosub | notyours | nosession | panic | hit | miss | nopending
     (lists in the final state are sorted by id; `-` when empty)
 -/
 open Opcua Opcua.SrvIds
@@ -35,6 +35,7 @@ def showOut : Out → String
   | .errNoSub => "nosub"
   | .errNotYours => "notyours"
   | .panic => "panic"
+  | .errNoSession => "nosession"
   | .applied true => "hit"
   | .applied false => "miss"
   | .noSuchPending => "nopending"
